@@ -11,7 +11,7 @@ C20: allocator events recorded from before the VM exists are validated by TLC ag
 C09: string programs (equal contents built by different routes, compared, used as field names and list members, with
      equal strings created, dropped and collected in between) run under the schedules against Lang.tla, and their
      intern events are validated against Gc.tla S4."""
-import json, os, random, collections
+import json, os, random, collections, re
 import vlib, lang, langrun, gen, c_lang, schedlib, c_sched
 from lang import *
 
@@ -302,6 +302,45 @@ def run(pid, tier, replay=None):
         rejw = c_sched.validate_traces(runs, v)
         for rid, (cls, at) in rejw.items():
             v.violation(f"{rid}: channel contract refuses observed event #{at}: {cls}", {"id": rid})
+    # the repository's own fixture programs (language, std_lib, demo; imports with their directory): the same report plainly,
+    # under a collection at every allocation and on the gc_stress build; allocator events of the dense run go to Gc.tla
+    if pid == "C05" and not replay:
+        import glob as _glob
+        fx = [f for f in sorted(_glob.glob("/repo/laythe_vm/fixture/**/*.lay", recursive=True)) if "/benchmark/" not in f and "/criterion/" not in f and "/limit/" not in f]       # (limit: huge sources, quadratic under a dense schedule)
+        if tier == "quick":
+            fx = random.Random(vlib.seed()).sample(fx, min(250, len(fx)))
+        fcases = []
+        for i, f in enumerate(fx):
+            d = os.path.dirname(f)
+            fs = {"/v/" + os.path.relpath(g, d): open(g, errors="replace").read() for g in _glob.glob(d + "/**/*.lay", recursive=True)}
+            fcases.append({"id": f"fx{i}", "files": fs, "main": "/v/" + os.path.basename(f)})
+        plain = vlib.run_batch(binary, fcases, per_case_timeout=30)
+        again = vlib.run_batch(binary, fcases, per_case_timeout=30)
+        dense = vlib.run_batch(binary, [dict(c, gc={"every": 1, "force_full": True}, classes=["gc", "alloc"], max_events=200000) for c in fcases], per_case_timeout=120)
+        stress = vlib.run_batch(binary_gs, fcases, per_case_timeout=120)
+        strip = lambda t: re.sub(r"0x[0-9a-f]+", "0x?", t or "")
+        sig = lambda r: (r.get("status"), strip(r.get("stdout")), strip(r.get("stderr")))
+        nfx = slow_fx = 0
+        for i, f in enumerate(fx):
+            a = plain[f"fx{i}"]
+            if sig(a) != sig(again[f"fx{i}"]) or a.get("status") in ("timeout", "hang"):
+                continue            # reads a clock or a random source (or runs for long): not a function of the program
+            nfx += 1
+            judged += 1
+            for name, r in (("a collection at every allocation", dense[f"fx{i}"]), ("the gc_stress build", stress[f"fx{i}"])):
+                if r.get("status") in ("timeout", "hang"):
+                    slow_fx += 1        # a full collection per allocation is quadratic: running out of time is not judged
+                    continue
+                if sig(r) != sig(a):
+                    v.violation(f"fixture {os.path.relpath(f, '/repo')}: {name} changes the report: {a.get('status')} {strip(a.get('stdout'))[-100:]!r} / "
+                                f"{strip(a.get('stderr'))[-80:]!r} becomes {r.get('status')} {strip(r.get('stdout'))[-100:]!r} / {strip(r.get('stderr'))[-80:]!r} {str(r.get('panic'))[:120]}"[:700],
+                                {"id": "fixture:" + os.path.relpath(f, "/repo"), "source": open(f, errors="replace").read(), "schedule": name})
+                    break
+            r = dense[f"fx{i}"]
+            if r.get("events") and r.get("dropped", 0) == 0:
+                traces += gc_trace(r, f"fx{i}|every1-full", early)
+        v.notes["fixture_programs"] = nfx
+        v.notes["fixture_runs_out_of_time_under_dense_schedules"] = slow_fx
     if traces:
         for rej in validate_gc(traces, v):
             cid = rej["run"].split("|")[0]
